@@ -182,6 +182,21 @@ func eleEnumerate(s *Shard, prop string, fn func(c *Case, cfg eleCfg)) {
 					}
 				}
 				fn(&Case{Prop: prop, Kind: "electre", Req: eleRequest(cfg)}, cfg)
+				if g.n <= 3 && o[2*g.m+2] == 0 && o[2*g.m+3] == 0 {
+					// the same with the type of every gain criterion left out (the documented default is gain)
+					tc := cfg
+					tc.Types = append([]string{}, cfg.Types...)
+					any := false
+					for j, t := range tc.Types {
+						if t == "gain" {
+							tc.Types[j] = ""
+							any = true
+						}
+					}
+					if any {
+						fn(&Case{Prop: prop, Kind: "electre", Req: eleRequest(tc)}, tc)
+					}
+				}
 			}
 		})
 	}
@@ -288,6 +303,21 @@ func eleNearCut(s *Shard, prop string, fn func(c *Case, cfg eleCfg)) {
 func c05Run(s *Shard) {
 	cur = s
 	sampled := 0
+	// requests with more alternatives than a machine word has bits (63..130), against the reference implementation
+	for _, n := range []int{63, 65, 67, 130} {
+		for shape := 0; shape < 3; shape++ {
+			for _, pos := range [][]int{{0, 1, 2, 3, 4}, {n - 1, n - 2, n - 3, n - 4, n - 5}, {0, n - 1, 1, n - 2, n / 2}} {
+				if !s.Take() {
+					continue
+				}
+				req, _, _ := eleLarge(n, shape, pos, 0)
+				c := &Case{Prop: "C05", Kind: "electre", Req: req}
+				s.Evals++
+				s.Begin(c)
+				s.Report(c05Check(c))
+			}
+		}
+	}
 	eleNearCut(s, "C05", func(c *Case, cfg eleCfg) {
 		s.Evals++
 		s.Begin(c)
